@@ -207,6 +207,12 @@ class IMMachine(FormatMachine):
     def new_obj(self):
         return self.mods().Images()
 
+    def keeps_roundtrip_oracle(self, why):
+        # the library itself accepted the colliding image into a current-format manifest: IF it then agrees to write the
+        # manifest, it reads it back
+        s = self.slots.get(0)
+        return why == "identity-collision-in-manifest" and any(sl.model and sl.model.get("accepted_collision") for sl in self.slots.values())
+
     def observe(self, obj):
         return observe_im(obj)
 
@@ -230,7 +236,8 @@ class IMMachine(FormatMachine):
     def op_im_init(self, op):
         s = Slot()
         s.obj = self.new_obj()
-        s.model = {"compose": {}, "version": s.obj.header.version, "imgs": {}, "cells": {}, "legacy_collision": False,
+        # a new manifest is a current-format manifest (the model does not ask the object what it thinks it is)
+        s.model = {"compose": {}, "version": CURRENT, "imgs": {}, "cells": {}, "legacy_collision": False,
                    "version_origin": "fresh-default"}
         for f in COMPOSE_FIELDS:
             s.model["compose"][f] = getattr(s.obj.compose, f)
@@ -429,8 +436,17 @@ class IMMachine(FormatMachine):
             # C05: "re-loading that file gives an identical object" - an object converted from an older document must also
             # BEHAVE like one: in a C05 run the lapse is reported there
             P = "C05" if (self.cfg.get("focus") == "C05" and model.get("version_origin") == "loaded") else "C09"
-            raise Violation(P, "%s.colliding_add_refused" % P, "colliding-add-accepted/v%s" % model["version"],
-                            {"version": model["version"], "identity": list(identity(img))[:5]})
+            if self.watching(P) or self.cfg.get("focus") not in ("C02", "C08"):
+                raise Violation(P, "%s.colliding_add_refused" % P, "colliding-add-accepted/v%s" % model["version"],
+                                {"version": model["version"], "identity": list(identity(img))[:5]})
+            # a round-trip / canonical-form run: the manifest now holds what the call put in; the run's own oracle judges what
+            # becomes of it (a manifest the library agrees to write is read back)
+            CTX.probe("foreign.colliding_add_accepted")
+            model["accepted_collision"] = True
+            cell = model["cells"].setdefault(variant, {}).setdefault(arch, [])
+            if iid not in cell:
+                cell.append(iid)
+            return "accepted-colliding(foreign)"
         if expect == UNSPEC:
             s.tainted = True
             return "accepted-unspec"
